@@ -92,3 +92,12 @@ for _nt in (1, 4):
 # its check "partitioned reads deliver the stream values in order" on HEAD, L1=2, L2=1 passes -- see the report.
 # (tried again after the repair D72 with --max-field-sensitivity-array-size 2048 and constant lengths (2,1), (1,2), (1,3): no answer in
 #  900 s either.  The defect was found by a NATIVE run of this harness, and its repair is NOT guarded by any obligation.)
+
+# ----------------------------------------------------------------------------- hcomp.c: the dispatch layer (loop-free)
+HRW = dict(unit="hcomp_rw_u.c", file="hdf/src/hcomp.c", objbits=8, cex_unwind=4,
+           trusted=["modelling layer info->minfo.model_funcs.read/.seek: logging stubs (which access record, how many bytes / which offset), fail on demand",
+                    "A-SEEK-2G: the absolute seek target is representable in int32"])
+# the one indirect call of each function is restricted to the logging stub (its requires pins the pointer to it): without the
+# restriction cbmc considers every function of the signature, HCPread itself included, and does not finish
+ob("HCPread", ["C05", "C20"], entry="h_HCPread", enforce="HCPread", gi_flags=["--restrict-function-pointer", "HCPread.function_pointer_call.1/m_read"], **HRW)
+ob("HCPseek", ["C05", "C20"], entry="h_HCPseek", enforce="HCPseek", gi_flags=["--restrict-function-pointer", "HCPseek.function_pointer_call.1/m_seek"], **HRW)
